@@ -15,7 +15,7 @@ from hypothesis import HealthCheck, Phase, settings, strategies as st
 from hypothesis.stateful import RuleBasedStateMachine, initialize, invariant, rule, run_state_machine_as_test
 
 from vf import canon, decomp, gen_macro, gen_prog, gen_ssb, results
-from vf.core import Failure, Stats, derive_seed, VERIF, REPO
+from vf.core import Failure, Stats, derive_seed, VERIF, REPO, weighted
 
 ID = "C11"
 LEVEL = "exploration"
@@ -85,7 +85,7 @@ def pool_items():
     pair = st.one_of(st.just([]), gen_macro.macro_programs(single_file=True, max_stmts=20).map(macro_pair))
     ws_item = st.one_of(st.just([]), gen_macro.macro_programs(single_file=False, max_stmts=20).filter(lambda c: c.get("files")).map(lambda c: [{"kind": "ws", "case": c}]))
     memo = st.one_of(st.just([]), memo_table_inputs())
-    return st.tuples(p_item, s_item, e_item, st.lists(st.one_of(p_item, s_item, s_item, e_item), min_size=0, max_size=3), pair, ws_item, memo).map(lambda t: [t[0], t[1], t[2]] + t[3] + t[4] + t[5] + t[6])
+    return st.tuples(p_item, s_item, e_item, st.lists(weighted((1, p_item), (2, s_item), (1, e_item)), min_size=0, max_size=3), pair, ws_item, memo).map(lambda t: [t[0], t[1], t[2]] + t[3] + t[4] + t[5] + t[6])
 
 
 @st.composite
